@@ -301,6 +301,10 @@ class Session:
         self.crashed = None
         self.absbad = []
         self.n_lines = 0
+        # executed collapses whose refinement hypotheses (chkMergeHyps, C01.merge_refines) held / did not hold
+        self.mhyps_held = 0
+        self.mhyps_not_met = 0
+        self.mhyps_desync = 0
 
     def new_history(self):
         self.trace = []
@@ -328,6 +332,15 @@ class Session:
             b = self.m.stdout.readline().rstrip("\n")
         except (BrokenPipeError, OSError):
             b = "<model driver died>"
+        # the model appends ' # mhyps <held> <not met>' to the answers of executed collapses (single 'merge' requests and
+        # 'refine' passes that performed collapses); it is counted and removed before anything else looks at the answer
+        if " # mhyps" in b:
+            b, tail = b.split(" # mhyps", 1)
+            w = tail.split()
+            if len(w) == 2 and all(x.isdigit() for x in w):
+                self.mhyps_held += int(w[0]); self.mhyps_not_met += int(w[1])
+            else:
+                self.mhyps_desync += 1
         if compare:
             bb = b
             if "absbad" in b:
